@@ -1016,5 +1016,10 @@ class CachedInput:
             line += self.__buffer[:max_size]
             self.__buffer = self.__buffer[max_size:]
 
-        # no end-of-line found
+        # no end-of-line found: the line was cut by size (or by end of input)
+        if len(line) > 1 and line[-1:] == b'\r' and \
+                (self.__buffer or self.__todo > 0):
+            # do not cut CRLF in two, next line will start with this CR
+            self.__buffer = b'\r' + self.__buffer
+            line = line[:-1]
         return line
